@@ -106,6 +106,16 @@ def run(tier, seed):
                             chk.diverge("Model.verify_reg(bit flip)", f"{fmt} {part} bit {i}: model {ml[:70]} impl {il[:70]}", {"fmt": fmt, "part": part, "bit": i})
                     chk.seen(("reg", fmt, kind, part, i))
                 chk.count(f"reg:{fmt}:{part}", len(orig) * 8)
+    # the values that bind the statement to the presented data may not be shortened or emptied either (each genuinely signed / certified)
+    from harness import regcat
+    for fmt, names in (("tpm", ("extradata-empty", "extradata-truncated", "attested-name-empty", "attested-name-only-alg")),
+                       ("apple", ("nonce-empty", "nonce-truncated")), ("android-key", ("challenge-empty",))):
+        for nm in names:
+            for kind in ("ES256-P256", "RS256"):
+                s = regsim.RScn(fmt, kind, kind if fmt == "tpm" else "ES256-P256")
+                regcat.FORMAT_FAULTS[fmt][nm](s, rng)
+                pd, reg = regsim.build(s)
+                B.run_case(regrun.policy_of(pd), reg, "dict", "reject", f"binding-value/{nm}/{fmt}/{kind}", scn=s)
     chk.exhaustive = True
     A.close(); B.close()
     return fw.finish(chk, ob, br, TRUSTED,
